@@ -147,7 +147,7 @@ def run(pid, tier, seed):
                            "states_generated": r.generated, "tlc_wall_s": round(r.wall, 1), "invariants": INVS})
             fls = [f for f in flavours if vlib.DIRECTED[f] == directed]
             d = os.path.join(vlib.WORK, tag)
-            jobs = [("replay-search", {"flavour": f, "cases": r.out_file, "max-violations": 300},
+            jobs = [("replay-search", {"flavour": f, "cases": r.out_file, "max-violations": 6000, "bucket-cap": 25},
                      os.path.join(d, "replay_%s_%s.json" % (name, f))) for f in fls]
             for res in vlib.harness_parallel(jobs, timeout=6000):
                 if res["cases"] == 0:
@@ -159,8 +159,8 @@ def run(pid, tier, seed):
                     if len(rep.cov["samples"]) < 6:
                         rep.cov["samples"].append(s)
                 if res["n_mismatch"] > len(res["mismatches"]):
-                    rep.notes.append("%s %s: %d disagreements with the algorithm layer, first %d adjudicated (unadjudicated_drift=%d)"
-                                     % (res["flavour"], name, res["n_mismatch"], len(res["mismatches"]), res["n_mismatch"] - len(res["mismatches"])))
+                    rep.notes.append("%s %s: %d disagreements with the algorithm layer in %d classes, %d adjudicated (up to 25 per class)"
+                                     % (res["flavour"], name, res["n_mismatch"], len(res.get("mismatch_classes", {})), len(res["mismatches"])))
                 for m, reasons in adjudicate(res["mismatches"], directed, fam["nodes"], "%s/adj_%s_%s" % (tag, name, res["flavour"])):
                     if not m.get("graph_unchanged", True):
                         reasons = list(reasons) + ["failure"]
